@@ -5,6 +5,7 @@ import (
 	"go/ast"
 	"go/token"
 	"go/types"
+	"os"
 	"sort"
 	"strings"
 
@@ -54,6 +55,19 @@ func (c *Ctx) ruleMarshalPurity(rule string) {
 		names = append(names, f)
 	}
 	sort.Slice(names, func(i, j int) bool { return prog.SSAName(names[i]) < prog.SSAName(names[j]) })
+	if dbg := os.Getenv("VERIF_DEBUG_EFF"); dbg != "" {
+		for _, f := range names {
+			if !strings.Contains(prog.SSAName(f), dbg) {
+				continue
+			}
+			for _, w := range e.direct[f] {
+				fmt.Fprintf(os.Stderr, "EFF direct %s: what=%q typ=%q org=%s\n", prog.SSAName(f), w.what, w.typ, originDesc(w.org))
+			}
+			for idx, what := range e.params[f] {
+				fmt.Fprintf(os.Stderr, "EFF param %s: %d %q\n", prog.SSAName(f), idx, what)
+			}
+		}
+	}
 	for _, f := range names {
 		for _, w := range e.direct[f] {
 			t := w.typ
@@ -61,7 +75,11 @@ func (c *Ctx) ruleMarshalPurity(rule string) {
 				t = typeOfWhat(w.what)
 			}
 			if w.org.kind != oGlobal && !modelType(t) {
-				continue
+				// a store without a struct type of its own (a string behind a pointer) into memory that some call
+				// handed out: what the accessors hand out is the catalog
+				if !(t == "" && w.org.kind == oExisting && strings.HasPrefix(w.what, "store to memory")) {
+					continue
+				}
 			}
 			n++
 			key := fmt.Sprintf("%s | %s", prog.SSAName(f), trimVia(w.what))
@@ -70,7 +88,16 @@ func (c *Ctx) ruleMarshalPurity(rule string) {
 		if isRoot[f] {
 			for idx, what := range e.params[f] {
 				if !modelType(typeOfWhat(what)) {
-					continue
+					// a store whose target has no struct type of its own (a string, a number behind a pointer) is still a
+					// write into the catalog when it is reached from the entry point's receiver or argument and that one
+					// is the model
+					pt := ""
+					if idx < len(f.Params) {
+						pt = namedType(f.Params[idx].Type())
+					}
+					if !(strings.HasPrefix(what, "store to memory") && (modelType(pt) || strings.Contains(pt, "jsight-api-core/kit."))) {
+						continue
+					}
 				}
 				n++
 				key := fmt.Sprintf("%s | param %d: %s", prog.SSAName(f), idx, trimVia(what))
@@ -336,6 +363,8 @@ func (c *Ctx) ruleDepCalls(rule string) {
 				}
 				if inOnce {
 					r.Ok(rule, key, "stateful dependency call memoised by sync.Once", where)
+				} else if freshRegexReceiver(f, call) {
+					r.Ok(rule, key, "the state that advances belongs to a scratch schema made in this very function (regex.FromFile / regex.New): nobody else sees it", where)
 				} else {
 					r.Bad(rule, key, "a stateful dependency call ("+class+") is not memoised by a sync.Once: repeated serialisation returns different bytes", where)
 				}
@@ -724,4 +753,23 @@ func (c *Ctx) mapIsCallLocalCtor(f *Fn, e ast.Expr) bool {
 		return true
 	})
 	return n > 0 && fresh
+}
+
+// freshRegexReceiver: the receiver of the call is a regex schema made in the same function (directly, or a local defined
+// once by regex.FromFile / regex.New): its example sequence is nobody else's.
+func freshRegexReceiver(f *Fn, call *ast.CallExpr) bool {
+	sel, ok := ast.Unparen(call.Fun).(*ast.SelectorExpr)
+	if !ok {
+		return false
+	}
+	recv := ast.Unparen(unalias(f, sel.X))
+	if dc, _ := definingCall(f, sel.X); dc != nil {
+		recv = dc
+	}
+	mk, ok := recv.(*ast.CallExpr)
+	if !ok {
+		return false
+	}
+	g := callee(f.Pkg, mk)
+	return g != nil && g.Pkg() != nil && strings.HasSuffix(g.Pkg().Path(), "notations/regex") && (g.Name() == "FromFile" || g.Name() == "New")
 }
